@@ -162,6 +162,88 @@ class XGen:
     return "\n".join(L) + "\n"
 
 
+# --- deterministic template families (run in full on every tier) ------------------------------------------------
+_DUNDERS = [None, ("__len__", "0"), ("__len__", "2"), ("__bool__", "False"), ("__bool__", "True")]
+
+
+def truthiness_family():
+  """Where does a class get its truth value from?  Every placement of a __len__/__bool__ definition (falsy or
+  truthy) on two bases x every inheritance shape (single, both orders of multiple inheritance, one level deeper)
+  x the value used as a condition in every syntactic position.  10 hierarchies per module."""
+  units = []
+  k = 0
+  for da in _DUNDERS:
+    for db in _DUNDERS:
+      for shape in ("A", "AB", "BA", "deepAB", "deepBA"):
+        if shape == "A" and db is not None:
+          continue
+        k += 1
+        A, B, C, D = "TA%d" % k, "TB%d" % k, "TC%d" % k, "TD%d" % k
+        L = []
+        for name, d in ((A, da), (B, db)):
+          L.append("class %s:" % name)
+          L.append("  tag = %r" % name)
+          if d:
+            L.append("  def %s(self): return %s" % d)
+        bases = {"A": A, "AB": "%s, %s" % (A, B), "BA": "%s, %s" % (B, A), "deepAB": "%s, %s" % (A, B),
+                 "deepBA": "%s, %s" % (B, A)}[shape]
+        L.append("class %s(%s): pass" % (C, bases))
+        cls = C
+        if shape.startswith("deep"):
+          L.append("class %s(%s): pass" % (D, C))
+          cls = D
+        o = "to%d" % k
+        L += ["%s = %s()" % (o, cls),
+              "ta%d = (1 if %s else 'a')" % (k, o),
+              "tb%d = (%s or 'x')" % (k, o),
+              "tc%d = (%s and 1.5)" % (k, o),
+              "if %s:" % o, "  td%d = 1" % k, "else:", "  td%d = None" % k,
+              "te%d = (not %s)" % (k, o),
+              "tf%d = [y for y in [%s] if y]" % (k, o),
+              "tg%d = (b'' if not %s else ())" % (k, o)]
+        units.append(L)
+  mods = []
+  for i in range(0, len(units), 10):
+    mods.append("\n".join(["_L = [0, 0, 0]"] + [l for u in units[i:i + 10] for l in u]) + "\n")
+  return mods
+
+
+def narrowing_family():
+  """isinstance / `is None` narrowing of every scalar kind against every builtin class (incl. the PEP-484
+  promotion pairs int/float/complex, bool/int, bytearray-free bytes), and tuple unions of every pair of lengths
+  0..2 assigned in the two orders."""
+  vals = ["0", "7", "True", "1.5", "''", "b'a'", "None", "[]", "()", "(1,)", "{}", "{1}", "2j"]
+  clss = ["int", "float", "complex", "bool", "str", "bytes", "list", "tuple", "dict", "set", "object", "(str, float)",
+          "(int, bytes)"]
+  mods = []
+  L = ["_L = [0, 0, 0]"]
+  k = 0
+  for v in vals:
+    for c in clss:
+      k += 1
+      L += ["def nf%d(v):" % k, "  if isinstance(v, %s):" % c, "    return [v]", "  return v",
+            "nr%d = nf%d(%s)" % (k, k, v),
+            "ns%d = (%s if isinstance(%s, %s) else 'no')" % (k, v, v, c)]
+      if k % 40 == 0:
+        mods.append("\n".join(L) + "\n")
+        L = ["_L = [0, 0, 0]"]
+  if len(L) > 1:
+    mods.append("\n".join(L) + "\n")
+  tups = ["()", "(1,)", "('a',)", "(1, 'a')", "(None, 2.5)", "(1, 2, 3)"]
+  L = ["_L = [0, 0, 0]"]
+  k = 0
+  for t1 in tups:
+    for t2 in tups:
+      if t1 == t2:
+        continue
+      k += 1
+      L += ["tu%d = %s" % (k, t1), "if len(_L) > 1:", "  tu%d = %s" % (k, t2),
+            "def tv%d(c):" % k, "  if c:", "    return %s" % t1, "  return %s" % t2,
+            "tw%d = tv%d(len(_L) > 5)" % (k, k), "tx%d = [%s, %s][1]" % (k, t1, t2)]
+  mods.append("\n".join(L) + "\n")
+  return mods
+
+
 # --- oracle ---------------------------------------------------------------------------------------------------
 class Skip(Exception):
   pass
@@ -179,6 +261,7 @@ def admits_ann(node, v, ns, classes):
     if n == "float": return isinstance(v, (int, float))
     if n == "complex": return isinstance(v, (int, float, complex))
     if n == "bool": return isinstance(v, bool)
+    if n == "function": return callable(v)
     if n == "str": return isinstance(v, str)
     if n == "bytes": return isinstance(v, bytes)
     if n in ("list", "set", "dict", "tuple", "frozenset"): return isinstance(v, ns.get(n, __builtins__[n] if isinstance(__builtins__, dict) else getattr(__builtins__, n)))
